@@ -212,7 +212,8 @@ impl Property for C09 {
     fn runs(&self, tier: Tier) -> u64 {
         match tier {
             Tier::Quick => 2000,
-            Tier::Thorough => 40000,
+            // (every third scenario brings 12 follow-up runs: 100000 runs in all)
+            Tier::Thorough => 20000,
         }
     }
     fn rule(&self) -> &'static str {
